@@ -59,11 +59,14 @@ AddField(t, v, rep) == /\ Len(fields) < MaxFields
                        /\ fields' = Append(fields, <<IF rep /\ fields # <<>> THEN fields[1][1] ELSE TagName(Len(fields) + 1, t), t, v>>)
                        /\ (rep => fields # <<>> /\ fields[1][2] = t)
                        /\ UNCHANGED cgpos
+AddDs == /\ Len(fields) < MaxFields /\ ~(\E k \in 1..Len(fields) : IsDs(fields[k]))      \* the (documented) dropped tag, at any position
+         /\ fields' = Append(fields, <<"ds", "Z", "*+a3-cc:1">>) /\ UNCHANGED cgpos
 SetCg(k) == cgpos = 0 /\ k \in 1..(Len(fields) + 1) /\ cgpos' = k /\ UNCHANGED fields
 RNext == (\E t \in Types, rep \in BOOLEAN : \E v \in ValsOf(t, IF fields = <<>> THEN ZLen ELSE 1) \cup {"a:b"} : (t = "Z" \/ v # "a:b") /\ AddField(t, v, rep))
-         \/ (\E k \in 1..(MaxFields + 1) : SetCg(k))
+         \/ (\E k \in 1..(MaxFields + 1) : SetCg(k)) \/ AddDs
 RSpec == RInit /\ [][RNext]_rvars
 (* design sanity: identity re-serialisation is accepted, dropping or truncating is not *)
-IdentityAccepted == TagsVerdict(fields, fields, FALSE) = "ok"
-DropRejected == fields # <<>> => TagsVerdict(fields, Tail(fields), FALSE) # "ok"
+IdentityAccepted == TagsVerdict(fields, fields, FALSE) = (IF \E k \in 1..Len(fields) : IsDs(fields[k]) THEN "ds_not_dropped" ELSE "ok")
+DropRejected == (fields # <<>> /\ ~IsDs(fields[1])) => TagsVerdict(fields, Tail(fields), FALSE) # "ok"
+DsDropAccepted == TagsVerdict(fields, NoDs(fields), FALSE) = "ok"
 =============================================================================
